@@ -38,4 +38,16 @@ CLAIMED["C07"] = {
           "with errors.Unwrap). The fuzzing part is sampling: it can miss inputs; it found and led to eight fix: commits (see known_findings.json).",
   "technique": "Coq computed theorems over error tables translated from source (tabx) + differential-free fuzzing of the public API with an intrinsic no-panic/structured-error oracle (sampled part labelled partial)",
 }
+CLAIMED["C17"] = {
+  "text": "Rendering half - full proof on the model of errors/document.go: C17_slice_bounds (line begin <= position, begin <= end <= length for ANY content and position: every slice the "
+          "Go code takes is in range, so rendering cannot panic), C17_detect_nl_* (the new-line byte chosen is LF for LF and CRLF files, CR for CR files), C17_line_number_lf/cr/crlf "
+          "(1 + line breaks before the position), C17_line_text_lf/cr (the shown text is the containing line, left-trimmed, truncated to 197 bytes + '...' beyond 200) and "
+          "C17_caret_lf/cr (caret offset = column minus trimmed blanks) for every file and position; axiom-free. Tie: every content over {a,space,tab,LF,CR} up to length 5 (quick) / 7 "
+          "(thorough) x every position and random long-line files, library vs extracted model vs an independent python oracle. Position half - PARTIAL: the JSON parse-error position "
+          "(first byte that cannot continue the text, last byte when truncated) is compared with an independent LL(1) parser and with the Coq scanner model on exhaustive / truncated / "
+          "mutated texts; the viable-prefix theorem for the scanner model and validation-error positions are not proved yet (validation positions are not yet checked).",
+  "note": "Trusted: Coq kernel; extraction; harness parsing of Error() text; python oracle (lib/check_c17.py) for line/caret on uniform files and lib/jsonref.py for positions. "
+          "Files mixing CR and LF irregularly are only covered by totality. The renderer defect (negative caret count) was fixed in c5cac3c.",
+  "technique": "Coq proofs about the renderer model (bounds, line number, line text, caret for all files/positions) + exhaustive small-file correspondence; sampled differential check of parse-error positions",
+}
 NOT_APPLICABLE = {}
